@@ -2,7 +2,7 @@
 From Coq Require Import List Arith Bool Lia.
 Import ListNotations.
 From IT Require Import Runtime.Actor Runtime.Lists Runtime.ActorInv Runtime.InvDefs Runtime.InvSeq
-  Runtime.InvIds Runtime.InvArgs Runtime.InvReply Runtime.InvOrder.
+  Runtime.InvIds Runtime.InvArgs Runtime.InvReply Runtime.InvOrder Runtime.InvFault.
 
 Section Combined.
 Context {A V : Type}.
@@ -154,4 +154,20 @@ Theorem sequential_spec m a0 progs sched : let s := run m a0 progs sched in
   | None => exists a, Replay sem a0 (applied s) a
   end.
 Proof. intros s. destruct (Inv_reachable m a0 progs sched) as (_ & _ & _ & _ & _ & _ & S & _). exact S. Qed.
+
+(* C09: when the stop message of a self-consuming call is taken, every call accepted before it has been executed *)
+Theorem stop_after_all_earlier a0 m s s' : Inv a0 m s -> step m s Ac = Some s' -> exited s = None -> exited s' = Some Stopped ->
+  dropped s = [] ->
+  exists c q, enq s = applied_ids s ++ c :: q /\ applied s' = applied s.
+Proof.
+  intros (_ & _ & F & (_ & P) & _ & _ & _ & L) H E E' D.
+  destruct L as (_ & _ & _ & L4 & _). destruct (L4 E) as (_ & M & _).
+  cbn [Actor.step] in H. unfold step_actor in H.
+  repeat match type of H with
+  | context [match ?x with _ => _ end] => destruct x eqn:?; try discriminate H
+  end; injection H as <-; cbn in E'; try congruence; try discriminate E'.
+  all: match goal with Q : queue _ = MStop ?c :: ?q, B : busy _ = None |- _ =>
+         exists c, (map msg_id q); unfold fifo_ok, qids in F; rewrite Q in F; cbn in F;
+         rewrite (P D M) in F; unfold busy_id in F; rewrite B, app_nil_r in F; repeat split; auto end.
+Qed.
 End Combined.
